@@ -878,4 +878,10 @@ example : ReachAtMost 1 SE.Buf.discBuf ∧ SE.Buf.CoversDisc 1 SE.Buf.discBuf :=
 example : geosBuffered (.point 5 2000) = true ∧ SE.Buf.valid (.point 5 2000) = true ∧
     (Geom.point 5 2000).bounds = some ⟨5, 2000, 5, 2000⟩ := by decide +kernel
 
+-- the shoelace area (contract `AreaExact`): a 2 x 3 rectangle given as a closed ring, with a unit-square hole
+example : closedArea (.polygon [[(0, 0), (2, 0), (2, 3), (0, 3), (0, 0)]]) = some 6 := by decide +kernel
+example : closedArea (.polygon [[(0, 0), (2, 0), (2, 3), (0, 3)], [(1/2, 1), (1/2, 2), (3/2, 2), (3/2, 1), (1/2, 1)]]) = some 5 := by
+  decide +kernel
+example : closedArea (.boundingBox 1 2 3 5) = some 6 := by decide +kernel
+
 end SE.Proofs.C06
